@@ -26,22 +26,37 @@ const maxReaderDepth = 2
 // what its code can still observe: while suspended, unsuspensionStart is dead
 // (Resume overwrites it before anything reads it); while running, only the
 // sum totalUnsuspended + (t - unsuspensionStart) is ever formed, for instants
-// t >= now (for t == unsuspensionStart the guarded branch of
-// getTotalUnsuspendedWithTime yields the same value as the sum).
+// t >= now - maxLate (late deliveries carry stamps of the past). For
+// t > unsuspensionStart that sum is cur - (now - t); for t <= unsuspensionStart
+// the guarded branch of getTotalUnsuspendedWithTime yields totalUnsuspended =
+// cur - age with age = now - unsuspensionStart. Which of the two applies to a
+// stamp t >= now - maxLate is determined by min(age, maxLate+1), now and in
+// every future state.
 func (w *world) dumpClock(clk *re_clock.SuspendableClock) string {
 	n, start, total := re_clock.VerifSuspendableClockDump(clk)
 	if n != 0 {
 		return fmt.Sprintf("sc=%d,tu=%d", n, int(total/tick))
 	}
-	return fmt.Sprintf("sc=0,cur=%d", int((total+w.clk.Now().Sub(start))/tick))
+	age := w.clk.Now().Sub(start)
+	cur := int((total + age) / tick)
+	if age > (maxLate+1)*tick {
+		age = (maxLate + 1) * tick
+	}
+	return fmt.Sprintf("sc=0,cur=%d,age=%d", cur, int(age/tick))
 }
 
 func (w *world) key(clk *re_clock.SuspendableClock) string {
-	s := w.clk.key() + "|" + w.dumpClock(clk)
+	dc := w.dumpClock(clk)
 	w.mu.Lock()
 	defer w.mu.Unlock()
-	s += fmt.Sprintf("|rc=%d,st=%v,dn=%v,w=%d,u=%d,cx=%v|r=%d/%d,%d/%d|g=%v%v%v%v|sd=%s",
-		w.refCount, w.started, w.done, w.wall, w.u, w.cancelled,
+	s := w.clk.key(w.u) + "|" + dc
+	// The last delivery only matters at the instant at which it was made.
+	ld := "-"
+	if w.delivNow == w.clk.nowTick() {
+		ld = fmt.Sprintf("%d/%d", w.delivNow-w.delivStamp, w.u-w.delivU)
+	}
+	s += fmt.Sprintf("|rc=%d,st=%v,dn=%v,w=%d,u=%d,cx=%v,lu=%d,lc=%d,la=%v,ld=%s|r=%d/%d,%d/%d|g=%v%v%v%v|sd=%s",
+		w.refCount, w.started, w.done, w.wall, w.u, w.cancelled, w.lateU, w.lateCap, w.lateAny, ld,
 		w.ops[0], w.depth[0], w.ops[1], w.depth[1],
 		w.readerGate[0].waiting, w.readerGate[1].waiting, w.startGate.waiting, w.finishGate.waiting,
 		w.startDump)
@@ -104,17 +119,26 @@ func (w *world) judge(what string, deadlineExceeded bool, reported time.Duration
 	if deadlineExceeded {
 		if !w.inWindow() {
 			kind := "early"
-			if w.u > p.d+w.rho() || w.wall > w.limit() {
+			if w.u > w.upperU() || w.wall > w.upperWall() {
 				kind = "late"
 			}
-			w.fail("timeout-outside-window/"+kind, "%s: timeout raised at wall=%d unsuspended=%d ticks after the start, but timeout=%d threshold=%d maximum suspension=%d: allowed only when %d <= unsuspended <= %d or wall == %d (cancelled by the command: %v)",
-				what, w.wall, w.u, p.d, p.threshold, p.maxSusp, w.lower(), p.d+w.rho(), w.limit(), w.cancelled)
+			w.fail("timeout-outside-window/"+kind, "%s: timeout raised at wall=%d unsuspended=%d ticks after the start, but timeout=%d threshold=%d maximum suspension=%d (late ticks: %d unsuspended with a loop timer in flight, %d with the cap timer in flight): allowed only when %d <= unsuspended <= %d or %d <= wall <= %d (cancelled by the command: %v)",
+				what, w.wall, w.u, p.d, p.threshold, p.maxSusp, w.lateU, w.lateCap, w.lower(), w.upperU(), w.limit(), w.upperWall(), w.cancelled)
 		}
 	} else if !w.cancelled {
 		w.fail("spurious-cancel", "%s: completed as cancelled at wall=%d unsuspended=%d although the command never cancelled", what, w.wall, w.u)
 	}
 	if haveReported && reported != time.Duration(w.u)*tick {
-		w.fail("unsuspended-duration", "%s: reported unsuspended duration %v, but the command ran unsuspended for %d ticks (wall=%d, deadlineExceeded=%v, cancelled=%v)", what, reported, w.u, w.wall, deadlineExceeded, w.cancelled)
+		// A timeout detected through a base timer whose value was
+		// delivered late (stamp T < now) may report the unsuspended
+		// running time as of any instant between T and now.
+		lo := w.u
+		if deadlineExceeded && w.delivNow == w.clk.nowTick() {
+			lo = w.delivU
+		}
+		if reported < time.Duration(lo)*tick || reported > time.Duration(w.u)*tick {
+			w.fail("unsuspended-duration", "%s: reported unsuspended duration %v, but the command ran unsuspended for %d ticks (accepted: %d..%d; wall=%d, deadlineExceeded=%v, cancelled=%v)", what, reported, w.u, lo, w.u, w.wall, deadlineExceeded, w.cancelled)
+		}
 	}
 	w.x.Outcome("%s de=%v cancelled=%v wall=%d u=%d", what, deadlineExceeded, w.cancelled, w.wall, w.u)
 	w.done = true
@@ -233,11 +257,85 @@ func (w *world) commandTimer(clk *re_clock.SuspendableClock) {
 	x.ResetLocal("cmd@end")
 }
 
-// checkTimerValue: the value published by the timer is the firing instant.
+// checkTimerValue: the value published by the timer is the firing instant of
+// a base timer: the current instant, or up to maxLate ticks earlier if late
+// ticks were taken in this execution.
 func (w *world) checkTimerValue(v time.Time) {
-	if now := w.clk.Now(); !v.Equal(now) {
-		w.fail("timer-value", "timer published %v, but it fired at %v", v.Sub(epoch), now.Sub(epoch))
+	w.mu.Lock()
+	late := w.lateAny
+	w.mu.Unlock()
+	now := w.clk.Now()
+	if v.Equal(now) || (late && v.Before(now) && !v.Before(now.Add(-maxLate*tick))) {
+		return
 	}
+	w.fail("timer-value", "timer published %v, but it fired at %v", v.Sub(epoch), now.Sub(epoch))
+}
+
+// onDeliver records the delivery of a base timer.
+func (w *world) onDeliver(t *fakeTimer, now int) {
+	w.mu.Lock()
+	w.delivNow, w.delivStamp, w.delivU = now, t.deadline, t.uAtDue
+	u := w.u
+	w.mu.Unlock()
+	if now > t.deadline {
+		w.x.Logf("base timer that fired at tick %d is delivered %d tick(s) late (unsuspended running time then %d, now %d)", t.deadline, now-t.deadline, t.uAtDue, u)
+	}
+}
+
+// onRearm: the goroutine of the clock under test has processed the expiry of
+// a base timer stamped T and, instead of raising the timeout, arms the next
+// timer for nd. It must not grant more than the budget that was left at T:
+// nd <= max(0, timeout - U(T)). (The unmodified code computes
+// timeout - current with U(T) <= current <= U(now).)
+func (w *world) onRearm(nd time.Duration) {
+	w.mu.Lock()
+	defer w.mu.Unlock()
+	if !w.started || w.done || w.delivNow != w.clk.nowTick() {
+		return
+	}
+	rem := w.p.d - w.delivU
+	if rem < 0 {
+		rem = 0
+	}
+	if nd > time.Duration(rem)*tick {
+		w.fail("rearm-beyond-budget", "the expiry of the base timer that fired at tick %d (processed at tick %d) was answered by re-arming for %v, but at the firing instant the command had already run unsuspended for %d of its %d ticks: at most %d may be granted (threshold %d, wall=%d, unsuspended now=%d)",
+			w.delivStamp, w.delivNow, nd, w.delivU, w.p.d, rem, w.p.threshold, w.wall, w.u)
+	}
+}
+
+// doTick lets one tick pass. late: although a due base timer has not been
+// delivered yet.
+func (w *world) doTick(late bool) {
+	p := w.p
+	w.mu.Lock()
+	defer w.mu.Unlock()
+	loopDue, capDue, _ := w.clk.dueKinds()
+	if w.started && !w.done && !late {
+		// Full quiescence, no expiry in flight, and the command has
+		// not observed completion.
+		if w.wall >= w.upperWall() {
+			w.fail("bound-exceeded", "wall-clock bound violated: %d ticks after the start (timeout %d + maximum suspension %d, %d late ticks of the cap timer) the timeout has still not fired (unsuspended=%d)", w.wall, p.d, p.maxSusp, w.lateCap, w.u)
+		} else if w.u >= w.upperU() {
+			w.fail("timeout-missed", "the command has run unsuspended for %d ticks (timeout %d, wall=%d, %d unsuspended late ticks) and the timeout has still not fired although no expiry is in flight", w.u, p.d, w.wall, w.lateU)
+		}
+	}
+	w.clk.advance()
+	if w.started && !w.done {
+		w.wall++
+		if w.refCount == 0 {
+			w.u++
+		}
+		if late {
+			w.lateAny = true
+			if loopDue && w.refCount == 0 {
+				w.lateU++
+			}
+			if capDue {
+				w.lateCap++
+			}
+		}
+	}
+	w.clk.markDue(w.u)
 }
 
 func name(p params) string {
@@ -262,7 +360,8 @@ func scenario(p params, bounds map[string]int) *mc.Scenario {
 		// of a due timer while another thread is in mid-step.
 		PreemptFree: true,
 		Build: func(x *mc.X) {
-			w := &world{x: x, p: p, clk: &fakeClock{x: x}, stop: make(chan struct{})}
+			w := &world{x: x, p: p, clk: &fakeClock{x: x, capFirst: p.timer}, stop: make(chan struct{}), delivNow: -1}
+			w.clk.onDeliver, w.clk.onRearm = w.onDeliver, w.onRearm
 			w.readerGate[0], w.readerGate[1] = w.newGate(), w.newGate()
 			w.startGate, w.finishGate = w.newGate(), w.newGate()
 			clk := re_clock.NewSuspendableClock(w.clk, time.Duration(p.maxSusp)*tick, time.Duration(p.threshold)*tick)
@@ -277,7 +376,7 @@ func scenario(p params, bounds map[string]int) *mc.Scenario {
 				x.Go("CMD", func() { w.commandContext(clk) })
 			}
 
-			hardMax := p.maxStart + w.limit() + 2
+			hardMax := p.maxStart + w.limit() + 2 + maxLate
 
 			// 1. Time passes: only at full quiescence, only while no
 			// due timer / deadline is undelivered.
@@ -295,26 +394,7 @@ func scenario(p params, bounds map[string]int) *mc.Scenario {
 					w.clk.mu.Unlock()
 					return now < hardMax && started
 				},
-				Fire: func() {
-					w.mu.Lock()
-					if w.started && !w.done {
-						// Full quiescence, no due timer undelivered, and
-						// the command has not observed completion.
-						if w.wall >= w.limit() {
-							w.fail("bound-exceeded", "wall-clock bound violated: %d ticks after the start (timeout %d + maximum suspension %d) the timeout has still not fired (unsuspended=%d)", w.wall, p.d, p.maxSusp, w.u)
-						} else if w.u >= p.d+w.rho() {
-							w.fail("timeout-missed", "the command has run unsuspended for %d ticks (timeout %d, wall=%d) and the timeout has still not fired", w.u, p.d, w.wall)
-						}
-					}
-					w.clk.advance()
-					if w.started && !w.done {
-						w.wall++
-						if w.refCount == 0 {
-							w.u++
-						}
-					}
-					w.mu.Unlock()
-				},
+				Fire: func() { w.doTick(false) },
 			})
 			// 2. Delivery of due base timers (one at a time) and of the
 			// base context's deadline. They may also be delivered while
@@ -334,6 +414,26 @@ func scenario(p params, bounds map[string]int) *mc.Scenario {
 				Name:    "deliver:context-deadline",
 				Enabled: func() bool { return !w.clk.isBusy() && len(w.clk.dueContexts()) > 0 },
 				Fire:    func() { w.clk.deliverContext(w.clk.dueContexts()[0]) },
+			})
+			// 2b. Late delivery: a tick passes although the value of a
+			// due base timer has not been delivered yet (the goroutine of
+			// the clock under test is scheduled late). A deviation; a
+			// timer is at most maxLate ticks late; the deadline of the
+			// base context is always prompt. (Must come after the
+			// deliver events: the first enabled event is free.)
+			x.AddEvent(&mc.Event{
+				Name: "tick-late", OnlyIdle: true, IdleCost: 1,
+				Enabled: func() bool {
+					w.mu.Lock()
+					started, done := w.started, w.done
+					w.mu.Unlock()
+					if !started || done || w.clk.isBusy() || len(w.clk.dueContexts()) > 0 {
+						return false
+					}
+					loopDue, capDue, oldest := w.clk.dueKinds()
+					return (loopDue || capDue) && oldest < maxLate && w.clk.nowTick() < hardMax
+				},
+				Fire: func() { w.doTick(true) },
 			})
 			// Deliveries that nobody is waiting for any more (the
 			// clock's goroutine has gone): only at full quiescence.
